@@ -335,7 +335,10 @@ func factsAtDepth(b *ssa.BasicBlock, depth int) []Atom {
 				}
 				out = append(out, fs...)
 				if _, isK := ph.Edges[feasible].(*ssa.Const); !isK {
-					out = append(out, Atom{Op: a.Op, X: ph.Edges[feasible], If: a.If})
+					// the flag's value on that edge, decomposed like a branch condition (x == K, !p, ...)
+					at := condAtom(ph.Edges[feasible], a.Op == "true")
+					at.If = a.If
+					out = append(out, at)
 				}
 			}
 		}
@@ -629,9 +632,23 @@ func mustPassFrom(fn *ssa.Function, from, to ssa.Instruction, pred0 func(ssa.Ins
 		// every continuation from start passes a pred
 		return true
 	}
+	// a return whose error result is a phi: the incoming edges on which the error is certainly non-nil are not
+	// ways of succeeding (`if err == nil { err = f() }; return resp, err`)
+	dead := map[*ssa.BasicBlock]bool{}
+	if r, isRet := to.(*ssa.Return); isRet {
+		dead = failingEdgesInto(r)
+	}
 	seen := map[*ssa.BasicBlock]bool{}
 	var stack []*ssa.BasicBlock
-	stack = append(stack, start.Succs...)
+	push := func(b *ssa.BasicBlock) {
+		for _, s := range b.Succs {
+			if s == tb && dead[b] {
+				continue
+			}
+			stack = append(stack, s)
+		}
+	}
+	push(start)
 	for len(stack) > 0 {
 		b := stack[len(stack)-1]
 		stack = stack[:len(stack)-1]
@@ -648,9 +665,55 @@ func mustPassFrom(fn *ssa.Function, from, to ssa.Instruction, pred0 func(ssa.Ins
 		if blocked[b] {
 			continue
 		}
-		stack = append(stack, b.Succs...)
+		push(b)
 	}
 	return true
+}
+
+// failingEdgesInto: the predecessor blocks of a return's block from which the returned error (a phi in that block)
+// is certainly non-nil; control arriving over those edges does not report success.
+func failingEdgesInto(r *ssa.Return) map[*ssa.BasicBlock]bool {
+	out := map[*ssa.BasicBlock]bool{}
+	fn := r.Parent()
+	ei := errResultIndex(fn)
+	if ei < 0 || ei >= len(r.Results) {
+		return out
+	}
+	ph, ok := r.Results[ei].(*ssa.Phi)
+	if !ok || ph.Block() != r.Block() {
+		return out
+	}
+	tb := r.Block()
+	bad := map[*ssa.BasicBlock]bool{}
+	for k, e := range ph.Edges {
+		p := tb.Preds[k]
+		nonNil := definitelyNonNilErr(e, p, map[ssa.Value]bool{})
+		if !nonNil {
+			if ifi, isIf := p.Instrs[len(p.Instrs)-1].(*ssa.If); isIf && p.Succs[0] != p.Succs[1] {
+				idx := 1
+				if p.Succs[0] == tb {
+					idx = 0
+				}
+				a := condAtom(ifi.Cond, idx == 0)
+				x, y := a.X, a.Y
+				if x != nil && isNilConst(x) {
+					x, y = y, x
+				}
+				if a.Op == "neq" && y != nil && isNilConst(y) && (x == e || Sym(x) == Sym(e)) {
+					nonNil = true
+				}
+			}
+		}
+		if nonNil {
+			out[p] = true
+		} else {
+			bad[p] = true
+		}
+	}
+	for p := range bad {
+		delete(out, p) // the same predecessor also arrives with a possibly-nil error
+	}
+	return out
 }
 
 // ---------------------------------------------------------------------------------------
@@ -1618,7 +1681,44 @@ func mustPassAvoiding(fn *ssa.Function, to ssa.Instruction, pred0 func(ssa.Instr
 
 // mustPassAvoidingFrom: as mustPassAvoiding, starting at the first instruction of block `from`.
 func mustPassAvoidingFrom(fn *ssa.Function, from *ssa.BasicBlock, to ssa.Instruction, pred0 func(ssa.Instruction) bool, skip func(b *ssa.BasicBlock, idx int) bool) bool {
-	pred := func(in ssa.Instruction) bool { return pred0(in) || transparentPass(in, pred0, 0) }
+	pred := func(in ssa.Instruction) bool {
+		if pred0(in) || transparentPass(in, pred0, 0) {
+			return true
+		}
+		// a new helper passes when, with the same edges taken out, each of its returns is reached only through pred
+		ci, isCall := in.(ssa.CallInstruction)
+		if !isCall {
+			return false
+		}
+		g := newHelperCallee(ci)
+		if g == nil || len(g.Blocks) == 0 || g == fn {
+			return false
+		}
+		n := 0
+		for _, b := range g.Blocks {
+			r, isRet := b.Instrs[len(b.Instrs)-1].(*ssa.Return)
+			if !isRet {
+				continue
+			}
+			n++
+			if b == g.Blocks[0] {
+				hit := false
+				for _, x := range b.Instrs {
+					if pred0(x) {
+						hit = true
+					}
+				}
+				if !hit {
+					return false
+				}
+				continue
+			}
+			if !mustPassAvoidingFrom(g, g.Blocks[0], r, pred0, skip) {
+				return false
+			}
+		}
+		return n > 0
+	}
 	seen := map[*ssa.BasicBlock]bool{}
 	var visit func(b *ssa.BasicBlock, first bool) bool
 	visit = func(b *ssa.BasicBlock, first bool) bool {
